@@ -238,7 +238,8 @@ impl ArxmlLexer<'_> {
                             // second char is '!' -> parse a comment
                             // we found a '>' character, but comments are allowed to contain unquoted '<' and '>'
                             // this means we need to make sure the end is actually '-->', not just '>'
-                            let mut comment_endpos = endpos;
+                            // the closing '-->' can't overlap the opening '<!--': its '>' is at offset 6 or later
+                            let mut comment_endpos = endpos.max(self.bufpos + 6);
                             while comment_endpos < self.buffer.len()
                                 && !self.buffer[comment_endpos - 2..].starts_with(b"-->")
                             {
